@@ -79,7 +79,7 @@ Emit ==
     IsCase =>
       LET rs == Runs IN
       \A i \in 1 .. Len(doc) :
-         CSVWrite("%1$s", <<ToJson([k |-> "vm", d |-> DocCode(doc), e |-> path, cs |-> <<i>>,
+         CSVWrite("%1$s", <<ToJson([k |-> "vm", d |-> DocCode(doc), e |-> path, cs |-> <<i>>, tag |-> IF FlatPath(path) THEN "flat" ELSE "",
                                     r |-> <<[nodes |-> rs[i].nodes,
                                              ops |-> IF Len(rs[i].ops) > 450 THEN <<0>> ELSE Flat(rs[i].ops)]>>])>>, OutFile)
 =============================================================================
